@@ -161,7 +161,7 @@ Theorem e4_nonvacuous :
 Proof.
   pose proof e4_race_check as H.
   destruct (run init e4_race_acts) as [s|] eqn:E; [|discriminate].
-  exists s. split; [exists e4_race_acts; exact E|].
+  exists s. split; [exists e4_race_acts; exact E|]. clear E.
   apply andb_true_iff in H. destruct H as [H H4].
   apply andb_true_iff in H. destruct H as [H H3].
   apply andb_true_iff in H. destruct H as [H1 H2].
@@ -171,3 +171,21 @@ Proof.
   - destruct (e4_resp s 1%nat) as [[[[|[|?]]|]| |]|]; try discriminate;
       destruct (e4_resp s 2%nat) as [[|[]|]|]; try discriminate; auto.
 Qed.
+
+(* a crash while the winner's entry is in the batcher and the loser is queued: nothing of either reaches the disk *)
+Definition e4_crash_acts : list action :=
+  e4_fund ++ [AStart 1%nat e4_spend; AStart 2%nat e4_spend] ++
+  [AResume 1%nat; AResume 2%nat] ++ e4_resumes 1%nat 7 ++ [ACrash] ++
+  [AStart 3%nat e4_spend] ++ e4_resumes 3%nat 8 ++ [APersistOk] ++ e4_resumes 3%nat 3.
+
+Lemma e4_crash_check :
+  match run init e4_crash_acts with
+  | Some s => e4_sv_b (persisted s) && Nat.eqb (length (persisted s)) 2 &&
+              (balance_of (persisted s) e4_alice =? 0) &&
+              match e4_resp s 1%nat, e4_resp s 2%nat, e4_resp s 3%nat with
+              | Some RCrashed, Some RCrashed, Some (ROk (Some 1%nat)) => true
+              | _, _, _ => false
+              end
+  | None => false
+  end = true.
+Proof. vm_compute. reflexivity. Qed.
